@@ -112,6 +112,21 @@ Theorem C16_reader_terminates :
 Proof. exact reader_terminates. Qed.
 Print Assumptions C16_reader_terminates.
 
+(* no hypothesis on the shape of the include graph: depth and width are irrelevant, only the
+   number of files counts.  Instances: a chain of depth 12 and a wide-and-nested tree are read
+   completely with exactly that fuel. *)
+Example C16_reader_depth_12 :
+  let fs := chain_files 12 root_name in
+  List.length fs = 13 /\
+  match read repaired ex_oracles fs (S (List.length fs)) with RDone vis _ => List.length vis = 13 | _ => False end.
+Proof. exact reader_deep_chain. Qed.
+
+Example C16_reader_wide_nested :
+  let fs := wide_files 10 in
+  List.length fs = 21 /\
+  match read repaired ex_oracles fs (S (List.length fs)) with RDone vis _ => List.length vis = 21 | _ => False end.
+Proof. exact reader_wide_nested. Qed.
+
 Theorem C16_no_panic_read :
   forall v o fs fuel, all_guards v o -> forall s, read v o fs fuel <> RPanic s.
 Proof. exact no_panic_read. Qed.
